@@ -1143,6 +1143,16 @@ DIRECTED = [
          'truncation': '2', 'bottom': '0'},
         {'op': 'score', 'votes': [[[[0, '5'], [1, '2']], 3], [[[0, '1'], [1, '3']], 3], [[[0, '2'], [1, '2']], 2]], 'n': 1,
          'function': 'mean', 'unscored': None, 'min_count': 0, 'truncation': '2', 'bottom': '0'}]},
+    # allocated score at magnitude 2^53 / 10^30: after the first seat's (fractional) spending the second seat is a one-vote race
+    {'op': 'allocated', '_tags': ['allocated_big_later_race'], 'quota': 'hare', 'n': 2, 'votes': [
+        [[[0, '5'], [1, '1'], [2, '1']], str(2 * 2 ** 53)], [[[0, '0'], [1, '2'], [2, '0']], str(2 ** 53 + 1)],
+        [[[0, '0'], [1, '0'], [2, '2']], str(2 ** 53)]]},
+    {'op': 'allocated', '_tags': ['allocated_big_later_race'], 'quota': 'hare', 'n': 2, 'votes': [
+        [[[0, '5'], [1, '1'], [2, '1']], str(2 * 10 ** 30)], [[[0, '0'], [1, '2'], [2, '0']], str(10 ** 30)],
+        [[[0, '0'], [1, '0'], [2, '2']], str(10 ** 30 + 1)]]},
+    {'op': 'allocated', '_tags': ['allocated_big_later_race'], 'quota': 'droop', 'n': 2, 'votes': [
+        [[[0, '5'], [1, '1'], [2, '1']], str(2 * 2 ** 53)], [[[0, '0'], [1, '1'], [2, '0']], str(2 ** 53 + 1)],
+        [[[0, '0'], [1, '0'], [2, '1']], str(2 ** 53)]]},
     # allocated score: enough supporters for every quota
     {'op': 'allocated', 'votes': [[[[0, '5'], [1, '2'], [2, '1']], 2], [[[1, '3'], [0, '1'], [2, '0']], 2]], 'n': 3, 'quota': 'hare'},
     {'op': 'allocated', 'votes': [[[[0, '5'], [1, '2']], 4], [[[1, '5'], [0, '1']], 3], [[[2, '4'], [0, '1'], [1, '1']], 3]], 'n': 2, 'quota': 'droop'},
@@ -1456,7 +1466,7 @@ REQUIRED_COUNTERS = ['pav_unique', 'pav_refusal', 'pav_one_seat', 'pav_one_seat_
                      'added_fraction_frac', 'added_fraction_dec', 'added_fraction_float', 'star_runoff_evaluator_object',
                      # magnitudes
                      'spav_big_later_race', 'spav_big_later_tie', 'pav_big_race', 'pav_big_tie',
-                     'allocated_big_count', 'allocated_big_tie', 'allocated_fraction_count',
+                     'allocated_big_count', 'allocated_big_tie', 'allocated_big_later_race', 'allocated_fraction_count',
                      'allocated_hagenbach_bischoff', 'allocated_imperiali', 'allocated_hare_rounded', 'allocated_quota_callable',
                      # structure
                      'mj_shared_median_3seats_complete', 'mj_shared_median_3seats_partial', 'mj_shared_median_heavy',
@@ -1538,7 +1548,7 @@ REQUIRED = ['pav_eq_spec', 'pavSpec_some_iff', 'pav_returns_iff_unique_maximiser
             'score_aggregate_eq_spec', 'mj_median_is_lower_median', 'score_mean_exact', 'score_eq_spec',
             'score_truncation_eq_spec', 'score_unscored_eq_spec', 'score_min_count_eq_spec',
             'mj_elects_highest_medians', 'mj_default_eq_spec', 'mj_median_stable_below_closest_change', 'star_runoff_pairwise', 'star_eq_schulze_of_runoff',
-            'allocated_spends_one_quota', 'allocated_fraction_out_spec', 'allocated_eq_spec', 'allocated_tie_places_fixed',
+            'allocated_spends_one_quota', 'allocated_fraction_out_spec', 'allocated_eq_spec', 'allocatedSelector_eq_weighted', 'allocated_tie_places_fixed',
             'star_members_spec', 'star_member_matrix', 'star_two_finalists',
             'star_single_runoff_fixed', 'star_boundary_tie_fixed', 'star_member_dropped_fixed',
             'mj_default_tiebreak_witness', 'mj_default_tiebreak_scale_witness', 'allocated_empty_ballot_witness',
@@ -1564,8 +1574,10 @@ NOT_VERIFIED = [
     'tuples) is not modelled: the correspondence compares up to permutation inside runs of equal keys',
     'MajorityJudgment results are compared as multisets (the evaluator documents that it does not order its result)',
     'ScoreToRankedVotes merges equal rankings before pair counting; the model adds ballot by ballot (same sums)',
-    'STAR run-off evaluators other than the default Schulze; unscored_value given as a callable object; truncation outside '
-    '{0} ∪ (0,1) ∪ positive integers; counts that are not Python ints (the code raises TypeError: open finding)',
+    'STAR run-off evaluators other than Schulze (by name or as object); unscored_value given as a callable object; truncation '
+    'counts that are not ints; score counts that are not Python ints (the code raises TypeError: open finding); Decimal or float '
+    'approval weights (PAV / SPAV raise TypeError: Fraction arithmetic); mixing Decimal with Fraction / float numbers in one call '
+    '(Python refuses the comparison); non-dyadic float grades (inexact by nature)',
     'AllocatedScoreDistributor with prev_gains / arbitrary max_seats (only the selector: max one seat each)',
 ]
 RULE = ('approval profiles over 2..6 candidates (1..6 distinct ballots, weights small ints, Fractions and ints up to 10^30), '
@@ -1575,6 +1587,14 @@ RULE = ('approval profiles over 2..6 candidates (1..6 distinct ballots, weights 
         'added_fraction {0,1/2,1}; allocated droop/hare; PAV call sequences (n, m, n, ...) on one instance; thorough adds all '
         'approval profiles over 3 candidates with <= 3 ballot kinds / 4 candidates with <= 2 (weights 1..2), all 2-candidate score '
         'profiles with <= 2 ballot kinds, grades 0..2, counts 1..2, and all 3-candidate ones with counts (1),(1,1),(2,1). '
+        'Generator checklist additions: candidate kinds (str / int ids incl. 0 / empty string / Person by identity, all hashing to '
+        'their id); grades, unscored_value, bottom_value as Fraction / Decimal (also 7 decimals) / dyadic float within one number '
+        'family, truncation as count / Fraction / Decimal / float, run-off fraction as Fraction / Decimal / float, Schulze passed as '
+        'object; falsy 0 / Fraction(0) / Decimal(0); negative unscored values; approval weights and allocated-score counts at 10^9, '
+        '2^53, 10^18, 10^30 with exact ties and one-vote races for later seats; all five quota functions by name and as callables; '
+        'Fraction counts for allocated score; 4-5 candidates sharing the median for 3+ seats (complete and partial ballots, weights '
+        'up to 30); one evaluator object called 2-3 times (after an exception, larger before smaller, a differently configured '
+        'object first); per-parameter sensitivity tags. '
         'Non-trivial = at least two candidates and a non-error outcome; distinct by canonical request.')
 TECHNIQUE = ('Lean 4: code-shaped models of approval.py / cardinal.py / convert.py proved equal to the defining computations '
              '(arg-max over all n-subsets, round-wise arg-max, weighted mean / sum / counting median), justified representation by '
